@@ -1552,8 +1552,9 @@ R.mutant("make-transient-removes-key-before-expunge", SESSION,
                    "    state = attributes.instance_state(instance)\n    if state.key:\n        del state.key\n    s = _state_session(state)\n    if s:\n        s._expunge_states([state])\n"),
                sub("    if state.key:\n        del state.key\n    if state._deleted:\n        del state._deleted\n", "    if state._deleted:\n        del state._deleted\n")), "C34-R6")
 R.mutant("expunge-detaches-to-transient-before-discard", SESSION,
-         chain(sub("        for state in states:\n            if state in self._new:\n                self._new.pop(state)\n            elif self.identity_map.contains_state(state):",
-                   "        statelib.InstanceState._detach_states(\n            states, self, to_transient=to_transient\n        )\n        for state in states:\n            if state in self._new:\n                self._new.pop(state)\n            elif self.identity_map.contains_state(state):"),
+         chain(sub("        self, states: Iterable[InstanceState[Any]], to_transient: bool = False\n    ) -> None:\n        for state in states:\n            if state in self._new:\n",
+                   "        self, states: Iterable[InstanceState[Any]], to_transient: bool = False\n    ) -> None:\n        statelib.InstanceState._detach_states(\n            states, self, to_transient=to_transient\n        )\n"
+                   "        for state in states:\n            if state in self._new:\n"),
                sub("                self._transaction._deleted.pop(state, None)\n        statelib.InstanceState._detach_states(\n            states, self, to_transient=to_transient\n        )\n",
                    "                self._transaction._deleted.pop(state, None)\n")), "C34-R6")
 R.mutant("benign-restore-alias-and-rename", SESSION,
